@@ -1,6 +1,7 @@
 package main
 
 import (
+	"crypto/sha1"
 	"fmt"
 	"time"
 	"go/constant"
@@ -75,6 +76,10 @@ type Interp struct {
 	notes     []string
 	stats     struct{ instrs, calls, merges, forks, feas int }
 	curGor    int
+	boundsCache map[string][2]float64
+	ordersCache [][2]string
+	boundsAt    int
+	boundsLast  *Term
 	gorVC     map[int]vclock
 	held      map[int]lockset
 	nextGor   int
@@ -459,8 +464,16 @@ func (in *Interp) symOrders() [][2]string {
 func (in *Interp) fillScript(ob *Obligation, q []*Term) {
 	ob.Script = in.ts.Script(q, nil)
 	if ob.Kind == "assert" {
-		ob.Bounds = in.symBounds()
-		ob.Orders = in.symOrders()
+		// shared between all obligations emitted under the same set of assumptions
+		var last *Term
+		if n := len(in.assumes); n > 0 {
+			last = in.assumes[n-1]
+		}
+		if in.boundsAt != len(in.assumes) || in.boundsLast != last || in.boundsCache == nil {
+			// (only used to steer pseudo-random probe points, never for a verdict)
+			in.boundsCache, in.ordersCache, in.boundsAt, in.boundsLast = in.symBounds(), in.symOrders(), len(in.assumes), last
+		}
+		ob.Bounds, ob.Orders = in.boundsCache, in.ordersCache
 	}
 	ob.Vars = map[string]Sort{}
 	ids := map[int]struct{}{}
@@ -478,7 +491,8 @@ func (in *Interp) fillScript(ob *Obligation, q []*Term) {
 	for _, a := range q {
 		ks = append(ks, fmt.Sprint(a.id))
 	}
-	ob.Key = in.harness + "|" + ob.Label + "|" + strings.Join(ks, ",")
+	kh := sha1.Sum([]byte(in.harness + "|" + ob.Label + "|" + strings.Join(ks, ",")))
+	ob.Key = string(kh[:12])
 }
 
 // implicit obligation (bounds, nil, div by zero, explicit panic)
